@@ -43,6 +43,10 @@ type Scenario struct {
 	Seed       int64      `json:"seed"`
 	Preload    int        `json:"preload"` // entries stored before the threads start (free mode)
 	CloseAfter int        `json:"closeAfter"` // free mode: closer starts after this many writer ops
+	// Solo (forced mode): once the schedule (a prefix) has been played out, this process alone keeps running -
+	// everybody else stays at the next gate they reach - until it has finished or is blocked (no gate reached
+	// for soloQuiet); then all run freely. Turns one co-location witness into the two "who moves first" orders.
+	Solo string `json:"solo"`
 }
 
 var out *bufio.Writer
@@ -100,9 +104,24 @@ type controller struct {
 	// gate, finished, or stayed away for settleTime = it is blocked on a lock or channel).
 	running  string
 	runStart time.Time
+	solo     string
+	soloOver bool
+	soloLast time.Time // last sign of progress of the solo process (or the end of the prefix)
+	soloHeld int       // gate arrivals of other processes that were held back for the solo process
 }
 
 const settleTime = 3 * time.Millisecond
+const soloQuiet = 15 * time.Millisecond
+const soloMax = 400 * time.Millisecond
+
+// finishedProc: the named process has made its last call.
+func (c *controller) finishedProc(proc string) {
+	c.mu.Lock()
+	if proc == c.solo {
+		c.soloOver = true
+	}
+	c.mu.Unlock()
+}
 
 func (c *controller) settled(proc string) {
 	c.mu.Lock()
@@ -159,6 +178,11 @@ func (c *controller) at(site string) {
 	proc := c.procName()
 	c.settled(proc) // arriving anywhere means the previous stretch of this process is over
 	ms, ok := vocab[kind(proc)][site]
+	if c.solo != "" && proc == c.solo {
+		c.mu.Lock()
+		c.soloLast = time.Now()
+		c.mu.Unlock()
+	}
 	if os.Getenv("CONC_DEBUG") != "" {
 		fmt.Fprintf(os.Stderr, "arrive %s %s (%v)\n", proc, site, ok)
 	}
@@ -176,6 +200,9 @@ func (c *controller) at(site string) {
 			c.passed++
 			c.running = proc
 			c.runStart = time.Now()
+			if c.pos == len(c.sched) {
+				c.soloLast = c.runStart
+			}
 			return
 		}
 		if !(cur[0] == proc && cur[1] == ms) {
@@ -202,6 +229,28 @@ func (c *controller) at(site string) {
 		c.mu.Unlock()
 		time.Sleep(100 * time.Microsecond)
 		c.mu.Lock()
+	}
+	if c.solo != "" && proc == c.solo && len(c.sched) > 0 && c.pos >= len(c.sched) {
+		// the process that passed the last gate of the prefix first finishes its stretch (eager semantics)
+		for !c.aborted && c.running != "" && c.running != proc && time.Since(c.runStart) <= settleTime {
+			c.mu.Unlock()
+			time.Sleep(50 * time.Microsecond)
+			c.mu.Lock()
+		}
+		c.soloLast = time.Now()
+	}
+	if c.solo != "" && proc != c.solo && !c.aborted && !c.soloOver && len(c.sched) > 0 && c.pos >= len(c.sched) {
+		c.soloHeld++
+		start := time.Now()
+		for !c.aborted && !c.soloOver {
+			if time.Since(c.soloLast) > soloQuiet || time.Since(start) > soloMax {
+				c.soloOver = true // the solo process is blocked (or slow): everybody runs
+				break
+			}
+			c.mu.Unlock()
+			time.Sleep(100 * time.Microsecond)
+			c.mu.Lock()
+		}
 	}
 }
 
@@ -254,7 +303,7 @@ func runScenario(sc *Scenario) {
 		wd.fs = sim.NewFS(wd.rec, sim.EmptyImage())
 		wd.meta = sim.NewMeta(wd.rec, sim.EmptyImage())
 	}
-	ctl := &controller{procs: map[int64]string{}}
+	ctl := &controller{procs: map[int64]string{}, solo: sc.Solo}
 	ctl.cond = sync.NewCond(&ctl.mu)
 	for _, e := range sc.Sched {
 		ctl.sched = append(ctl.sched, [2]string{procOf(e[0]), fmt.Sprint(e[1])})
@@ -329,7 +378,7 @@ func runScenario(sc *Scenario) {
 		wg.Add(1)
 		go func() {
 			defer wg.Done()
-			defer func() { finished <- name; ctl.settled(name) }()
+			defer func() { finished <- name; ctl.settled(name); ctl.finishedProc(name) }()
 			defer guard(name)
 			ctl.register(name)
 			fn()
@@ -516,7 +565,8 @@ func runScenario(sc *Scenario) {
 		outMu.Unlock()
 	}
 	ctl.mu.Lock()
-	emit(map[string]any{"ev": "schedule", "len": len(ctl.sched), "passed": ctl.passed, "aborted": ctl.aborted, "reason": ctl.reason})
+	emit(map[string]any{"ev": "schedule", "len": len(ctl.sched), "passed": ctl.passed, "aborted": ctl.aborted, "reason": ctl.reason,
+		"solo": ctl.solo, "soloHeld": ctl.soloHeld})
 	ctl.aborted = true
 	ctl.mu.Unlock()
 	setHook(nil)
